@@ -265,6 +265,7 @@ pub struct FdtEngine {
     pub last_poll: Option<u64>,
     pub sup_gap: u64,
     pub sup_ref: Option<u64>,
+    pub admitted_now: bool,
     pub sup_reported: bool,
     pub latest_pub: Option<(u64, u64)>, // (publish time µs, expiry µs) of the latest publication seen (explicit/auto)
     pub stats_pubs: u64,
@@ -317,6 +318,7 @@ impl FdtEngine {
             last_poll: None,
             sup_gap: 0,
             sup_ref: None,
+            admitted_now: true,
             sup_reported: false,
             latest_pub: None,
             stats_pubs: 0,
@@ -352,6 +354,46 @@ impl FdtEngine {
             .collect()
     }
 
+    /// would `FileDesc::new` accept the FDT object built now?  (the rules of filedesc.rs on the `fdt_cenc`-compressed
+    /// length of the serialised instance, under the session default OTI)
+    pub fn admits_now(&self, now: u64) -> bool {
+        let (cfg, s) = match (self.cfg.as_ref(), self.sender.as_ref()) {
+            (Some(c), Some(s)) => (c, s),
+            _ => return true,
+        };
+        let o = &cfg.oti;
+        let oti = match o.to_oti(true) {
+            Some(x) => x,
+            None => return true,
+        };
+        let mtl = oti.max_transfer_length() as u64;
+        if mtl >= (1 << 24) && o.b as u64 + o.p as u64 <= 256 && o.enc != 6 && o.enc != 1 && !((o.enc == 5 || o.enc == 129) && o.p == 0) {
+            return true; // far above any instance this engine generates: skip the serialisation
+        }
+        let xml = match guarded(AssertUnwindSafe(|| s.fdt_xml_data(st(now)))) {
+            Ok(Ok(x)) => x,
+            _ => return true,
+        };
+        let len = if cfg.fdt_cenc == 0 {
+            xml.len() as u64
+        } else {
+            match flute::sender::compress::compress_buffer(&xml, cenc_of(cfg.fdt_cenc)) {
+                Ok(c) => c.len() as u64,
+                Err(_) => return true,
+            }
+        };
+        if len > mtl {
+            return false;
+        }
+        let (al, _, _, nb) = hk::block_partitioning(o.b as u64, len, o.e as u64);
+        match o.enc {
+            5 | 129 => o.p != 0 && al + o.p as u64 <= 256,
+            6 => o.scheme.is_some() && nb <= 255,
+            1 => o.scheme.is_some() && nb <= 65535,
+            _ => true,
+        }
+    }
+
     fn note_publication(&mut self, time: u64) {
         let dur = self.cfg.as_ref().unwrap().dur_us;
         let expiry = (time / 1_000_000 + dur / 1_000_000) * 1_000_000;
@@ -363,8 +405,8 @@ impl FdtEngine {
     }
 
     fn op_cfg(&mut self, t: &[&str]) -> String {
-        // cfg <mode> <startId> <durUs> <oti> <groups> <fdtcenc>
-        if t.len() != 6 {
+        // cfg <mode> <startId> <durUs> <oti> <groups> <fdtcenc> <toiBits> <toiInit>
+        if t.len() != 8 {
             return "bad-op".into();
         }
         let full = match t[0] {
@@ -388,6 +430,19 @@ impl FdtEngine {
             Some(o) => o,
             None => return "bad-op".into(),
         };
+        let toi_len = match t[6] {
+            "16" => TOIMaxLength::ToiMax16,
+            "32" => TOIMaxLength::ToiMax32,
+            "48" => TOIMaxLength::ToiMax48,
+            "64" => TOIMaxLength::ToiMax64,
+            "80" => TOIMaxLength::ToiMax80,
+            "112" => TOIMaxLength::ToiMax112,
+            _ => return "bad-op".into(),
+        };
+        let toi_init: u128 = match t[7].parse() {
+            Ok(x) => x,
+            Err(_) => return "bad-op".into(),
+        };
         self.clear();
         let mut c = Config::default();
         c.fdt_duration = Duration::from_micros(dur);
@@ -395,7 +450,8 @@ impl FdtEngine {
         c.fdt_cenc = cenc_of(fc);
         c.fdt_publish_mode = if full { FDTPublishMode::FullFDT } else { FDTPublishMode::ObjectsBeingTransferred };
         c.groups = groups.clone();
-        c.toi_initial_value = Some(1);
+        c.toi_initial_value = Some(toi_init);
+        c.toi_max_length = toi_len;
         c.fdt_carousel_mode = CarouselRepeatMode::DelayBetweenTransfers(Duration::from_millis(200));
         c.interleave_blocks = 1;
         let ep = UDPEndpoint::new(None, "224.0.0.1".to_owned(), 1234);
@@ -603,13 +659,19 @@ impl FdtEngine {
                     }
                 }
             }
-            if *start && !full {
+            if *start && !full && self.admits_now(now) {
                 let snap = self.shadow_listed();
                 self.expq.push_back(ExpPub { time: now, snaps: vec![snap], auto: false });
                 self.note_publication(now);
             }
         }
         let snap_after = self.shadow_listed();
+        // only calls in which a publication can be attempted need the (costly) admission outcome
+        let admitted = if polled || !evs.is_empty() { self.admits_now(now) } else { true };
+        if !admitted {
+            hints.insert(0, "X".into());
+        }
+        self.admitted_now = admitted;
         // supersede oracle (evaluated at polls, before a republication of this very call is accounted)
         if polled {
             // gap to the previous poll, or to the latest publication when no poll came after it
@@ -670,7 +732,13 @@ impl FdtEngine {
         }
         self.sup_reported = true;
         let dur = self.cfg.as_ref().unwrap().dur_us;
-        let class = if dur <= 30_000_000 { "supersede-after-expiry-short-duration" } else { "supersede-after-expiry" };
+        let class = if !self.admitted_now {
+            "fdt-refused-no-successor"
+        } else if dur <= 30_000_000 {
+            "supersede-after-expiry-short-duration"
+        } else {
+            "supersede-after-expiry"
+        };
         o.fail(class, &format!(
             "instance published at {} us (fdt_duration {} us, Expires = {} s) has no successor at the poll at {} us although polled at least every {} us",
             pt, dur, expiry / 1_000_000 + NTP_OFF, now, self.sup_gap.max(1)));
@@ -787,16 +855,26 @@ impl Engine for FdtEngine {
                 _ => "bad-op".into(),
             },
             "pub" => match a.first().and_then(|x| x.parse::<u64>().ok()) {
-                Some(now) if a.len() == 1 => {
+                Some(now) if a.len() == 1 || (a.len() == 2 && a[1] == "X") => {
+                    let expect_refused = a.len() == 2;
+                    let fits = self.admits_now(now);
                     let s = self.sender.as_mut().unwrap();
                     match guarded(AssertUnwindSafe(|| s.publish(st(now)))) {
                         Ok(Ok(())) => {
+                            if !fits {
+                                o.fail("publish-admission", "publish() succeeded although the FDT object does not fit the session default OTI");
+                            }
                             let snap = self.shadow_listed();
                             self.expq.push_back(ExpPub { time: now, snaps: vec![snap], auto: false });
                             self.note_publication(now);
-                            "ok".into()
+                            if expect_refused { "HINT-MISMATCH ok".into() } else { "ok".into() }
                         }
-                        Ok(Err(_)) => "ERR".into(),
+                        Ok(Err(_)) => {
+                            if fits {
+                                o.fail("publish-admission", "publish() returned an error although the FDT object fits the session default OTI");
+                            }
+                            if expect_refused { "ERR".into() } else { "HINT-MISMATCH ERR".into() }
+                        }
                         Err(loc) => format!("PANIC {}", loc),
                     }
                 }
